@@ -5,7 +5,8 @@
 (* Logged number (JSON):  [s, q, m1, m2, ...]  denotes s * M * BASE^q with  *)
 (* M = m1 + m2*BASE + ... (limbs base 2^13, least significant first),       *)
 (* s in {-1,0,1}; every finite f32/f64 is exactly representable this way.  *)
-(* The strings "nan", "inf", "-inf" denote the specials.                   *)
+(* Specials are logged as [2,0] (NaN), [3,0] (+inf), [-3,0] (-inf): arrays  *)
+(* as well, because TLC cannot compare a tuple with a string.               *)
 (*                                                                         *)
 (* Dy  : <<s, q, M>>   exact                                               *)
 (* Fx  : BigInt n denoting n * BASE^-FL  (FL = 8 limbs = 104 fractional     *)
@@ -20,9 +21,12 @@ LOCAL INSTANCE TLC
 FL == 8          \* fractional limbs
 FBITS == 104
 
-IsSpecial(j) == j = "nan" \/ j = "inf" \/ j = "-inf"
-IsNaN(j) == j = "nan"
+IsSpecial(j) == j[1] \in {2, 3, -3}
+IsNaN(j) == j[1] = 2
+IsPosInf(j) == j[1] = 3
+IsNegInf(j) == j[1] = -3
 IsFin(j) == ~IsSpecial(j)
+AllFin(js) == \A i \in DOMAIN js : IsFin(js[i])
 
 (* logged array -> Dy *)
 Dy(j) == <<j[1], j[2], IF Len(j) <= 2 THEN <<>> ELSE SubSeq(j, 3, Len(j))>>
